@@ -207,7 +207,7 @@ func (e *Enc) makeInterface(x *ssa.MakeInterface, st *State) {
 	for i := range ls {
 		e.emitAssert(-1, eq(fmt.Sprintf("(un%s_%d %s)", bn, i, bv), a.L[i]))
 	}
-	e.emitAssert(-1, m.ile(m.ilit(0), bv))
+	e.emitAssert(-1, m.ilt(bv, m.ilit(0)))
 	e.vals[x] = Val{T: x.Type(), L: []string{tid, bv, m.ilit(0)}}
 }
 
